@@ -201,8 +201,16 @@ func ruleAdvance(c *Ctx) {
 		k := 0
 		for _, field := range []string{"writeOff", "ActualSize"} {
 			for _, s := range sizeStores(c, field) {
-				if s.fn != f || advanceOf(s.st) == nil {
+				if s.fn != f {
 					continue
+				}
+				// a file opened in this function (rotation, merge output) starts at zero: not an advance
+				if root, _ := splitPath(s.st.Addr.(*ssa.FieldAddr).X); root != nil {
+					if ex, ok := root.(*ssa.Extract); ok {
+						if cl, ok := ex.Tuple.(*ssa.Call); ok && calleeIs(&cl.Call, modPath, "", "NewDataFile") {
+							continue
+						}
+					}
 				}
 				n++
 				k++
@@ -334,6 +342,9 @@ func explanationOf(vdir string, pr *Property) string {
 // with an error result that passes an Entry.Encode result to it (its nil error means the write succeeded).
 func isRecordWrite(c *Ctx, call *ssa.Call) bool {
 	if calleeIs(&call.Call, modPath, "DataFile", "WriteAt") {
+		return true
+	}
+	if call.Call.IsInvoke() && call.Call.Method.Name() == "WriteAt" && isRWManager(call.Call.Value.Type()) {
 		return true
 	}
 	cal := call.Call.StaticCallee()
